@@ -3,7 +3,8 @@
 use laythe_core::value::{Value, VALUE_NIL};
 
 static NILS: [Value; 8] = [VALUE_NIL; 8];
-use laythe_lib::global::verif::verif_tuple_determine_index;
+use laythe_lib::global::verif::{verif_list_determine_index, verif_tuple_determine_index};
+use laythe_core::{managed::AllocateObj, object::List, VecBuilder};
 
 /// negative indices count from the end; fractional, NaN, infinite or out-of-range indices are an error; a returned
 /// index is always inside the receiver.  Receivers of length 0..=8 (the function only reads the length).
@@ -21,6 +22,24 @@ pub fn c_determine_index(len: usize, bits: u64) -> bool {
   }
 }
 
+/// the same contract for the list variant (receiver built without the allocator, length 0..=3, capacity 3)
+pub fn c_list_determine_index(len: usize, bits: u64) -> bool {
+  let len = len % 4;
+  let idx = f64::from_bits(bits);
+  let r = VecBuilder::new(&NILS[..len], 3).alloc();
+  std::mem::forget(r.handle);
+  let list = List::new(r.reference);
+  let r = verif_list_determine_index(&list, idx);
+  let li = len as i128;
+  let integral = idx.is_finite() && idx.fract() == 0.0;
+  let k = idx as i128;
+  let in_range = integral && -li <= k && k < li;
+  match r {
+    Ok(i) => in_range && i < len && (i as i128) == (if k >= 0 { k } else { li + k }),
+    Err(_) => !in_range,
+  }
+}
+
 #[cfg(kani)]
 mod proofs {
   use super::*;
@@ -30,5 +49,10 @@ mod proofs {
   #[kani::unwind(6)]
   #[kani::stub(alloc::fmt::format, fmt_stub)]
   fn o11_determine_index() { assert!(c_determine_index(kani::any(), kani::any())); }
+
+  #[kani::proof]
+  #[kani::unwind(6)]
+  #[kani::stub(alloc::fmt::format, fmt_stub)]
+  fn o11_list_determine_index() { assert!(c_list_determine_index(kani::any(), kani::any())); }
 }
 extern crate alloc;
